@@ -252,12 +252,14 @@ PLANS["C04"] = Plan(
 
 PLANS["C09"] = Plan(
     "C09", "other",
-    functions=[QO + ":_evaluate", "moptipyapps.qap.instance:Instance.__init__#dtype"],
+    functions=[QO + ":_evaluate", QO + ":QAPObjective.evaluate", "moptipyapps.qap.instance:Instance.__init__#dtype"],
     bounded=[bounded.qap.harness],
     extra=[contracts.qap.prove_c09_bounds, leancheck.lean_prover(["A4.lean"], "C09")],
     explanation="proved: _evaluate == sum_{i,j} flows[i,j] * distances[x[i],x[j]] (recursive spec qsum/qrow) for every pair of "
                 "non-negative matrices, every index vector in range and every storage dtype up to int64/uint32, all "
-                "intermediate values within int64; the storage type chosen by Instance.__init__ holds every entry of both "
+                "intermediate values within int64; QAPObjective.evaluate (the public entry point) returns exactly that sum for "
+                "the instance's two matrices (modular call of _evaluate's contract: every pre-condition established at the "
+                "call site, nothing done to the value afterwards); the storage type chosen by Instance.__init__ holds every entry of both "
                 "matrices whatever the bounds are (block contract; defect F12 repaired); trivial_bounds (whole-array numpy code, read from /repo) has exactly the "
                 "operation tree lower = sum(sort(flows) * reverse(sort(distances))), upper = sum(sort(flows) * "
                 "sort(distances)) in uint64 buffers; that these sums bound the objective of every assignment is the "
@@ -285,7 +287,7 @@ PLANS["C18"] = Plan(
                 "exactly as TSPLIB95 lays the triangle out (recursive offset functions with closed forms proved by "
                 "induction), zero diagonal, all indices in range for every n; the operation DAGs of __nint, __coord_to_rad, __dist_2deuc, __dist_2dceil, __dist_att, __dist_loglat "
                 "(read from /repo, int = truncation, sqrt/cos/acos uninterpreted) are identical to the TSPLIB95 definitions. "
-                "bounded: write/read round trip, the four explicit formats under random wrapping, coordinate instances vs an "
+                "bounded: write/read round trip, the four explicit formats under random wrapping and with arbitrary diagonal fillers, coordinate instances vs an "
                 "independent implementation; exhaustive over the data: all 31 shipped optimal tours",
     assumptions=["GEO uses truncating degree extraction, PI = 3.141592, RRR = 6378.388 (the reading of TSPLIB95 that reproduces "
                  "the published optima)", "FULL_MATRIX (numpy reshape) and the tokenizer / __read_n_ints: bounded only",
@@ -470,14 +472,15 @@ PLANS["C06"] = Plan(
 
 PLANS["C05"] = Plan(
     "C05", "proof",
-    functions=[TL + ":tour_length", "moptipyapps.tsp.instance:Instance.__new__",
+    functions=[TL + ":tour_length", TL + ":TourLength.evaluate", "moptipyapps.tsp.instance:Instance.__new__",
                "moptipyapps.tsp.instance:Instance.__new__#copy-check", "moptipyapps.tsp.instance:Instance.__new__#dtype",
                "moptipyapps.tsp.instance:Instance.__new__#lower", "moptipyapps.tsp.instance:Instance.__new__#attributes",
                TL + ":TourLength.lower_bound", TL + ":TourLength.upper_bound"],
     lemmas=["cyc_is_tour", "rmax_ge", "rmin_le", "cyc_le_max", "cyc_ge_min", "tour_within_instance_bounds"],
     extra=[leancheck.lean_prover(["A3.lean"], "C05")],
     bounded=[bounded.tsp_instance.harness],
-    explanation="tour_length equals the cyclic edge sum for every matrix/permutation/dtype, no int64 overflow; block contracts "
+    explanation="tour_length equals the cyclic edge sum for every matrix/permutation/dtype, no int64 overflow, and so does the "
+                "public entry point TourLength.evaluate (modular call of the kernel's contract on self.instance); block contracts "
                 "on tsp.Instance.__new__: upper bound = sum of row maxima, lower bound = sum of row minima (off-diagonal), "
                 "symmetry flag true iff the matrix is symmetric, zero diagonal and a positive entry per row enforced, stored "
                 "matrix equals the given one entry by entry (copy-check loop)",
